@@ -628,7 +628,9 @@ func (c *caseCtx) runOp(op string, emit func(*Instance)) {
 			inWin = true
 			logPath = ev.Path
 			logRemoved = false
-			fs0, _ = listDir(c.shardDir)
+			if fs0 == nil {
+				fs0, _ = listDir(c.shardDir) // the listing at the FIRST replacement of the operation (later plans must not overwrite it)
+			}
 			takeImage(len(events)-1, -1, nil) // crash just before the protocol starts (all new files written)
 		}
 		if ev.Kind == "write" && isLog(ev.Path) {
@@ -864,7 +866,7 @@ func (c *caseCtx) analyse(op string, events []*crashfs.Event, pend []pendingImag
 	for _, e := range fs0 {
 		uni[e.Name] = true
 	}
-	for i := w.lo; i <= w.hi; i++ {
+	for i := range events { // every path the operation touched (several plans may interleave), not only the analysed window
 		for _, p := range []string{events[i].Path, events[i].Path2} {
 			if n, _, ok := relName(c.shardDir, p); ok && p != "" {
 				uni[n] = true
